@@ -174,6 +174,20 @@ let () =
               print_endline (String.concat " " ("r" :: List.map (fun (Rd (o, n)) -> Printf.sprintf "%d:%d" (int_of_z o) (int_of_z n)) rs)))
          | _ -> print_endline "noroots");
         flush stdout
+      | ["mutreads"; kind; cmpid; name; key; prio; hexfile] ->
+        (* predicted ReadAt calls of SetItem / Delete on a freshly opened store *)
+        let f = bytes_of_hex hexfile in
+        let name = bytes_of_hex name in
+        (match scan f (blen f) with
+         | ScanFound (e, m) ->
+           (match List.assoc_opt name m with
+            | None -> print_endline "nocoll"
+            | Some root ->
+              (match mut_reads_file (cmp_of (nat_of_int (int_of_string cmpid))) f root e (kind = "set") (bytes_of_hex key) (z_of_int (int_of_string prio)) with
+               | Some rs -> print_endline (String.concat " " ("r" :: List.map (fun (Rd (o, n)) -> Printf.sprintf "%d:%d" (int_of_z o) (int_of_z n)) rs))
+               | None -> print_endline "undecodable"))
+         | _ -> print_endline "noroots");
+        flush stdout
       | ["openreads"; hexfile] ->
         let rs = open_reads (bytes_of_hex hexfile) in
         print_endline (String.concat " " ("r" :: List.map (fun (Rd (o, n)) -> Printf.sprintf "%d:%d" (int_of_z o) (int_of_z n)) rs));
@@ -201,6 +215,20 @@ let () =
           let b = Bytes.create (List.length f) in
           List.iteri (fun i x -> Bytes.set b i (Char.chr (int_of_n x))) f;
           print_endline (out_str o ^ " | " ^ string_of_int (Bytes.length b) ^ " " ^ Digest.to_hex (Digest.bytes b))) outs files;
+        print_endline "END";
+        flush stdout
+      | ["dfrun"; nops] ->
+        (* DStore with failing Flush calls (DiskFault.flush_fault): observation and file digest after every step *)
+        let nops = int_of_string nops in
+        let ops = List.init nops (fun _ ->
+          let line = input_line stdin in
+          match String.split_on_char ' ' line with
+          | ["flushfail"; k; torn] -> FFlushFail (nat_of_int (int_of_string k), nat_of_int (int_of_string torn))
+          | _ -> FOp (parse_op line)) in
+        List.iter (fun (o, f) ->
+          let b = Bytes.create (List.length f) in
+          List.iteri (fun i x -> Bytes.set b i (Char.chr (int_of_n x))) f;
+          print_endline (out_str o ^ " | " ^ string_of_int (Bytes.length b) ^ " " ^ Digest.to_hex (Digest.bytes b))) (dfrun dinit ops);
         print_endline "END";
         flush stdout
       | ["mrun"; fb; nops] ->
